@@ -57,7 +57,7 @@ def _gen_step(ci, dom, state):
             methods = None
             if h.path and draw(st.integers(0, 3)) == 0:
                 methods = ["clear", "reset"]
-            return gen.draw_mutator(draw, w, hi, dom, methods=methods, p_raise=1)
+            return gen.draw_mutator(draw, w, hi, dom, methods=methods, p_raise=1, p_inv=6)
         return gen.draw_read(draw, w, hi, dom, refs=False)
     return g
 
